@@ -8,6 +8,8 @@ G_UNITS = {
     "cmp_flags": ["CompareOp::is_effects_to", "HelperAttributesForCompareOp::get", "HelperAttributesForCompareOp::is_ignore",
                   "HelperAttributesForCompareOp::is_reverse", "HelperAttributesForCompareOp::bad_attr", "HelperAttributeForCompareOp::bad_attr",
                   "HelperAttributeForCompareOp::verify", "HelperAttributesForCompareOp::verify", "bad_attr_1"],
+    "cmp_select": ["build_partial_eq_expr", "build_eq_expr", "build_partial_ord_expr", "build_ord_expr", "build_hash_expr"],
+    "entry": ["DeriveEntry::apply_dump"],
 }
 
 
